@@ -446,6 +446,8 @@ def run(ctx):
                         d_ = [int(rng.integers(-4, 5)), int([2, 2, 2, 1, 3][rng.integers(5)]), 1]
                     elif k == 'angdeg':
                         d_ = [int([0, 90, -90, 180, 270, 45, 30, -180][rng.integers(8)]), 1, 0]
+                    elif k == 'gen':      # (a general number: never exactly zero, it is a divisor in the X / s templates)
+                        d_ = [int([-5, -4, -3, -2, -1, 1, 2, 3, 4, 5][rng.integers(10)]), int([1, 1, 2, 3][rng.integers(4)]), 0]
                     else:
                         d_ = [int(rng.integers(-5, 6)), int([1, 1, 2, 3][rng.integers(4)]), 0]
                     exact.append(d_)
